@@ -1,12 +1,99 @@
 import CTM.Drive.Util
+import CTM.Model.Selection
 open Lean
 
 namespace CTM.Drive.Selection
-open CTM CTM.Drive
+open CTM CTM.Drive CTM.Selection
 
-/-- ops of this module (stub: none yet) -/
-def handle : Handler := fun op _inp =>
+def parsePair (j : Json) : R Pair := do
+  let (d, u) ← asPair natList natList j
+  return { down := d, up := u }
+
+def parseTable (j : Json) : R RefTable := do
+  let g ← asNat (← field j "nGenes")
+  let ps ← asList parsePair (← field j "pairs")
+  return { nGenes := g, pairs := ps }
+
+def jErr (e : Err) : Json := jObj [("err", jStr e.name)]
+
+def jExcept {α} (f : α → Json) : Except Err α → Json
+  | .ok a => jObj [("ok", f a)]
+  | .error e => jErr e
+
+structure ParentIn where
+  leaves : List Nat
+  n : Nat
+  trace : List Nat
+  behemoth : Option Bool
+
+def parseParent (j : Json) : R ParentIn := do
+  let l ← natList (← field j "leaves")
+  let n ← asNat (← field j "n")
+  let tr ← natList (fieldD j "trace" (Json.arr #[]))
+  let b ← asOption asBool (fieldD j "behemoth" Json.null)
+  return { leaves := l, n := n, trace := tr, behemoth := b }
+
+/-- oracle by name; "trace" replays the recorded picks (reference ids) -/
+def mkTie (policy : String) (kept : List Nat) (trace : List Nat) : Tie :=
+  match policy with
+  | "first" => tieFirst
+  | "last" => tieLast
+  | _ => scripted (trace.map (fun g => kept.idxOf g)) kept.length
+
+def jSlot (s : Slot) : Json :=
+  jObj [("cDown", jNat s.cDown), ("cUp", jNat s.cUp), ("agg", jNat s.agg),
+        ("fDown", jBool s.fDown), ("fUp", jBool s.fUp),
+        ("censusDown", jNat s.censusDown), ("censusUp", jNat s.censusUp)]
+
+/-- the facts `_run_selection` logs about its exit state -/
+def jDetail (kept : List Nat) (nDesperate : Nat) (nOriginal : Nat) (st : St) : Json :=
+  jObj [("chosen", jNats (st.chosen.map (fun i => kept.getD i 0))),
+        ("nDesperate", jNat nDesperate),
+        ("nOriginal", jNat nOriginal),
+        ("filled", jNat ((st.slots.map (fun s => s.fDown.toNat + s.fUp.toNat)).sum)),
+        ("size", jNat (2 * st.slots.length)),
+        ("slots", jList jSlot st.slots),
+        ("util", jInts st.util)]
+
+/-- one parent in detail: exit state of `_run_selection` -/
+def detail (th : Thinned) (p : ParentIn) (behemoth : Bool) (policy : String) : Json :=
+  if p.leaves.isEmpty then jObj [("ok", jObj [("chosen", jNats []), ("skipped", jBool true)])]
+  else if hasDup p.leaves then jErr .dupPair
+  else match lookupPairs th.pairs (localOrder p.leaves behemoth) with
+    | .error e => jErr e
+    | .ok ps =>
+      let nG := th.kept.length
+      let nOrig := ((initState nG ps).util.filter (fun u => decide (0 < u))).length
+      match preState nG ps p.n with
+      | .error e => jErr e
+      | .ok st2 =>
+        match loop p.n (mkTie policy th.kept p.trace) (nG + 1) st2 with
+        | .error e => jErr e
+        | .ok st => jObj [("ok", jDetail th.kept st2.chosen.length nOrig st)]
+
+def handle : Handler := fun op inp =>
   match op with
+  | "selection.select_all" => some do
+      let t ← parseTable (← field inp "table")
+      let q ← natList (← field inp "query")
+      let ps ← asList parseParent (← field inp "parents")
+      let cutoff ← asNat (← field inp "cutoff")
+      let policy ← asStr (fieldD inp "policy" (jStr "trace"))
+      let kept := keptGenes t.nGenes q
+      let res := selectAll t q (ps.map (fun p => { leaves := p.leaves, n := p.n })) cutoff
+        (fun i => mkTie policy kept ((ps.getD i { leaves := [], n := 0, trace := [], behemoth := none }).trace))
+      return jExcept (jList (jExcept jNats)) res
+  | "selection.detail" => some do
+      let t ← parseTable (← field inp "table")
+      let q ← natList (← field inp "query")
+      let ps ← asList parseParent (← field inp "parents")
+      let cutoff ← asNat (← field inp "cutoff")
+      let policy ← asStr (fieldD inp "policy" (jStr "trace"))
+      match thin t q with
+      | .error e => return jErr e
+      | .ok th =>
+        return jObj [("ok", jList (fun p =>
+          detail th p ((p.behemoth).getD (isBehemoth t.pairs.length cutoff p.leaves)) policy) ps)]
   | _ => none
 
 end CTM.Drive.Selection
